@@ -44,7 +44,7 @@ def run(ctx):
     from TotalDepth.RP66V1.core import RepCode as R, File as RF
     rng = ctx.subrng('c07')
     d = ctx.wdir('tables')
-    files = {k: os.path.join(d, k + '.json') for k in ('OUT_32', 'OUT_16', 'OUT_8', 'OUT_UV', 'OUT_VAR')}
+    files = {k: os.path.join(d, k + '.json') for k in ('OUT_32', 'OUT_16', 'OUT_8', 'OUT_UV', 'OUT_VAR', 'OUT_VS')}
     varseqs = set()
     for _ in range(60):
         ident = bytes(rng.randrange(32, 127) for _ in range(rng.choice([0, 1, 3, 10])))
@@ -124,6 +124,34 @@ def run(ctx):
         ctx.case(('w8', row['code'], row['w']), True)
         check_row(row['code'], row['w'], 1, dy(row['d']))
     ctx.sample(dict(kind='oracle row', row=t32[len(t32) // 3]))
+    # VSINGL: the value formula has two readings in the offline sources (RepCodes!DecVsingl); the implementation must follow one
+    # of them on EVERY pattern - that fixes zero, sign, the exponent law and every fraction bit
+    tvs = json.load(open(files['OUT_VS']))
+    ctx.notes['table_rows']['vsingl'] = len(tvs)
+    readings = {'VAX F-floating (1/2 + F/2^24)': 'd24', 'RP66V2 11.3.23 test vectors (1/2 + F/2^23)': 'd23'}
+    alive = dict(readings)
+    for row in sorted(tvs, key=lambda r_: r_['b']):
+        by = bytes(row['b'])
+        ctx.case(('vsingl', by.hex()), row['d24']['m'] != 0)
+        ld = RF.LogicalData(by + b'\xaa\xbb')
+        try:
+            got = R.code_read(6, ld)
+            got2 = R.VSINGL(RF.LogicalData(by))
+        except Exception as e:
+            bad('rp-decode', 'RP66V1 VSINGL(%s) raised %s: %s' % (by.hex(), type(e).__name__, e), dict(code=6, bytes=by.hex()))
+            continue
+        if ld.index != 4 or R.rep_code_fixed_length(6) != 4:
+            bad('rp-consume', 'RP66V1 code 6 consumed %d bytes (fixed length helper %d), standard 4' % (ld.index, R.rep_code_fixed_length(6)), dict(code=6))
+        if got != got2:
+            bad('rp-decode', 'RP66V1 code_read(6, %s) = %r but VSINGL() = %r' % (by.hex(), got, got2), dict(code=6, bytes=by.hex()))
+        fits = {name: key for name, key in alive.items() if got == dy(row[key])}
+        if not fits:
+            bad('rp-decode', 'RP66V1 VSINGL(%s) = %r; the standard value is %r (VAX F-floating) or %r (reading of the RP66V2 test vectors)%s' % (
+                by.hex(), got, dy(row['d24']), dy(row['d23']),
+                '' if len(alive) == 2 else '; every earlier pattern followed the reading "%s"' % list(alive)[0]), dict(code=6, bytes=by.hex()))
+        else:
+            alive = fits
+    ctx.notes['vsingl_reading_followed'] = sorted(alive)
     # UVARI and the length helpers
     for row in tuv:
         by = bytes(row['bytes'])
@@ -225,7 +253,7 @@ def run(ctx):
             break
     ctx.rule = ('one case per oracle-table row (32-bit class points, 16-bit and 8-bit words, UVARI prefixes, consumption sequences) '
                 'plus sampled code-68 words and doubles; non-trivial = non-zero value')
-    ctx.assumptions += ['LIS code 50 is judged for exponent fields 0..1023 only and RP66V1 VSINGL values are not judged (the sources '
+    ctx.assumptions += ['LIS code 50 is judged for exponent fields 0..1023 only and RP66V1 VSINGL values are judged against the two readings the offline sources support, consistently (the sources '
                         'available offline disagree, see DESIGN.md)', 'FDOUBL relies on struct (not specified in TLA+)',
                         'the 2^32 sweep of the 32-bit codes is sampled, not exhaustive']
     ctx.explanation = ('reference decoders and encoder laws are TLA+ operators evaluated / checked by TLC; the implementations are '
